@@ -1321,6 +1321,15 @@ func (e *env) applyRequest(in *inputSpec, idx int, res *inResult) bool {
 		}
 		if port == "envoy" {
 			er := e.envoy.Check(in.meta("method"), in.meta("scheme"), in.meta("host"), in.meta("path"), map[string]string{"x-a": "b"}, "", nil)
+			if strings.Contains(er.RPCErr, "DeadlineExceeded") {
+				// a CheckRequest is answered - with a CheckResponse or a gRPC status - whatever its attributes are; the client waits
+				// 15 s for what takes milliseconds. Asked once more before it counts.
+				er = e.envoy.Check(in.meta("method"), in.meta("scheme"), in.meta("host"), in.meta("path"), map[string]string{"x-a": "b"}, "", nil)
+				if strings.Contains(er.RPCErr, "DeadlineExceeded") {
+					res.Problems = append(res.Problems, problem{Sig: "no-error-response", What: "a CheckRequest with odd attributes got no answer within the client's deadline (twice): " + er.RPCErr,
+						Detail: map[string]any{"method": in.meta("method"), "scheme": in.meta("scheme"), "host": in.meta("host"), "path": trunc(in.meta("path"), 200)}})
+				}
+			}
 			res.Notes = append(res.Notes, "envoy:"+trunc(fmt.Sprintf("ok=%v status=%d err=%s", er.OK, er.Status, er.RPCErr), 120))
 		} else {
 			_, got, _ := sendRaw(e.grpcApp.Addr(), false, in.Data, false)
@@ -1352,7 +1361,7 @@ func (e *env) applyRequest(in *inputSpec, idx int, res *inResult) bool {
 		addr, useTLS = fmt.Sprintf("127.0.0.1:%d", e.a.MgmtPort), true
 	}
 	deep := in.meta("deep") != ""
-	full := expect == "error" || expect == "ok" || deep
+	full := expect == "error" || expect == "ok" || expect == "answered" || deep
 	wait := 10 * time.Second
 	if deep {
 		wait = deepPatience
@@ -1371,6 +1380,9 @@ func (e *env) applyRequest(in *inputSpec, idx int, res *inResult) bool {
 		return false
 	case expect == "error" && err != nil:
 		res.Problems = append(res.Problems, problem{Sig: "no-error-response", What: "a well-formed HTTP request with malformed credentials got no HTTP response (twice): " + err.Error(),
+			Detail: map[string]any{"request": witness(in.Data)}})
+	case expect == "answered" && err != nil:
+		res.Problems = append(res.Problems, problem{Sig: "no-error-response", What: "a well-formed HTTP request (request line, header lines) with odd header values got no HTTP response (twice): " + err.Error(),
 			Detail: map[string]any{"request": witness(in.Data)}})
 	case expect == "error" && status < 400:
 		res.Problems = append(res.Problems, problem{Sig: "no-error-response", What: fmt.Sprintf("a request with malformed credentials was answered with status %d instead of an error response", status),
